@@ -32,6 +32,7 @@ type Contract struct {
 	Mode     string // int | bv
 	Requires []*Clause
 	Ensures  []*Clause
+	Proves   []*Clause // proved at the function's exits but not exported to callers
 	Panics   []*Clause // panics iff (disjunction)
 	Modifies []*Clause
 	Loops    map[int]*LoopSpec
@@ -51,6 +52,7 @@ type Contract struct {
 	Results  []string // result names override
 	Fresh    []*Clause
 	Hints    []*Clause
+	Weak     map[string]bool // parameters whose type invariants are neither assumed nor required
 }
 
 type LoopSpec struct {
@@ -86,7 +88,15 @@ type GlobalSpec struct {
 	Proof   string
 }
 
+type Define struct {
+	Name   string
+	Params []LemmaParam
+	Body   ast.Expr
+	Text   string
+}
+
 type SpecDB struct {
+	Defines   map[string]*Define
 	Contracts map[string]*Contract // key pkgpath + "::" + func
 	Types     map[string]*TypeSpec
 	Lemmas    map[string]*Lemma
@@ -94,8 +104,10 @@ type SpecDB struct {
 	Files     []string
 }
 
+var sortByName = map[string]Sort{"Int": SInt, "Fp": SFp, "Fn": SFn, "Pt": SPt, "Bool": SBool}
+
 func newSpecDB() *SpecDB {
-	return &SpecDB{Contracts: map[string]*Contract{}, Types: map[string]*TypeSpec{}, Lemmas: map[string]*Lemma{}, Globals: map[string]*GlobalSpec{}}
+	return &SpecDB{Defines: map[string]*Define{}, Contracts: map[string]*Contract{}, Types: map[string]*TypeSpec{}, Lemmas: map[string]*Lemma{}, Globals: map[string]*GlobalSpec{}}
 }
 
 // splitTopLevel splits s at the first top-level occurrence of op (outside parentheses/brackets).
@@ -244,25 +256,42 @@ func (db *SpecDB) loadFile(path string, pkgPath string, marker bool) error {
 				if len(f) != 2 {
 					return fmt.Errorf("%s: bad lemma parameter %q", where, p)
 				}
-				var so Sort
-				switch f[1] {
-				case "Int":
-					so = SInt
-				case "Fp":
-					so = SFp
-				case "Fn":
-					so = SFn
-				case "Pt":
-					so = SPt
-				case "Bool":
-					so = SBool
-				default:
+				so, ok := sortByName[f[1]]
+				if !ok {
 					return fmt.Errorf("%s: bad sort %q", where, f[1])
 				}
 				lm.Params = append(lm.Params, LemmaParam{f[0], so})
 			}
 			curLemma = lm
 			db.Lemmas[lm.Name] = lm
+			continue
+		case "define":
+			// define name(params) = expr
+			reset()
+			head, body, ok := strings.Cut(rest, "=")
+			if !ok {
+				return fmt.Errorf("%s: define needs '='", where)
+			}
+			name, params, _ := strings.Cut(head, "(")
+			params = strings.TrimSuffix(strings.TrimSpace(params), ")")
+			d := &Define{Name: strings.TrimSpace(name), Text: strings.TrimSpace(body)}
+			for _, p := range splitList(params) {
+				f := strings.Fields(p)
+				if len(f) != 2 {
+					return fmt.Errorf("%s: bad define parameter %q", where, p)
+				}
+				so, ok := sortByName[f[1]]
+				if !ok {
+					return fmt.Errorf("%s: bad sort %q", where, f[1])
+				}
+				d.Params = append(d.Params, LemmaParam{f[0], so})
+			}
+			be, err := parseSpecExpr(d.Text)
+			if err != nil {
+				return fmt.Errorf("%s: %v", where, err)
+			}
+			d.Body = be
+			db.Defines[d.Name] = d
 			continue
 		case "global":
 			reset()
@@ -347,12 +376,14 @@ func (db *SpecDB) loadFile(path string, pkgPath string, marker bool) error {
 				cur.Timeout, _ = strconv.Atoi(rest)
 			case "results":
 				cur.Results = strings.Fields(rest)
-			case "requires", "ensures", "panics":
+			case "requires", "ensures", "panics", "proves":
 				c, err := mkExprClause(kw, rest)
 				if err != nil {
 					return err
 				}
 				switch kw {
+				case "proves":
+					cur.Proves = append(cur.Proves, c)
 				case "requires":
 					cur.Requires = append(cur.Requires, c)
 				case "ensures":
@@ -439,6 +470,13 @@ func (db *SpecDB) loadFile(path string, pkgPath string, marker bool) error {
 				// split <expr> in lo..hi [else]
 				c := &Clause{Kind: "split", Text: rest, Line: where}
 				cur.Splits = append(cur.Splits, c)
+			case "weak":
+				if cur.Weak == nil {
+					cur.Weak = map[string]bool{}
+				}
+				for _, n := range splitList(rest) {
+					cur.Weak[n] = true
+				}
 			case "secret", "public":
 				for _, n := range splitList(rest) {
 					cur.Labels[n] = kw
